@@ -222,6 +222,8 @@ Fixpoint copy_loop (env : envmap) (o : copy_opts) (dir_mode file_mode : option N
       | inr e => (m, inr e)
       | inl prefix =>
           let dst_path := copy_dst dst_root (e_path src) prefix in
+          (* copying into the directory the source is already in resolves to the source itself *)
+          if bool_decide (dst_path = e_path src) then copy_loop env o dir_mode file_mode copy_into dst_root src_rootp m is' else
           match copy_one env o dir_mode file_mode m dst_path src with
           | (m', inl _) => copy_loop env o dir_mode file_mode copy_into dst_root src_rootp m' is'
           | (m', inr e) => (m', inr e)
